@@ -109,6 +109,11 @@ func (c *Ctx) sinkMatcher() (Matcher, []string) {
 // reachableModuleFuncs returns module functions reachable in the call graph from the roots (incl. modelled
 // reflective edges to the exported methods of *ast.BuiltInFunctions when withBuiltins is set).
 func (c *Ctx) reachableModuleFuncs(roots []*ssa.Function, withBuiltins bool) map[*ssa.Function]bool {
+	return c.reachableStop(roots, withBuiltins, nil)
+}
+
+// reachableStop is reachableModuleFuncs that does not descend below functions for which stopBelow is true.
+func (c *Ctx) reachableStop(roots []*ssa.Function, withBuiltins bool, stopBelow func(*ssa.Function) bool) map[*ssa.Function]bool {
 	cg := c.P.CallGraph()
 	seen := map[*ssa.Function]bool{}
 	var stack []*ssa.Function
@@ -125,6 +130,9 @@ func (c *Ctx) reachableModuleFuncs(roots []*ssa.Function, withBuiltins bool) map
 	for len(stack) > 0 {
 		f := stack[len(stack)-1]
 		stack = stack[:len(stack)-1]
+		if stopBelow != nil && stopBelow(f) {
+			continue
+		}
 		fMod := fnInModule(f)
 		if n := cg.Nodes[f]; n != nil {
 			for _, e := range n.Out {
